@@ -57,7 +57,10 @@ var c08Funcs = map[string]any{
 	"cat":     func(xs ...string) string { return strings.Join(xs, "+") },
 	"viaval":  func(v *pongo2.Value) *pongo2.Value { return v },
 	"withctx": func(ctx *pongo2.ExecutionContext, s string) string { return "ctx:" + s },
-	"anyf":    func(x any) string { return fmt.Sprintf("%T", x) },
+	"ctx3": func(ctx *pongo2.ExecutionContext, a string, b string, n int) string {
+		return a + "|" + b + "|" + strconv.Itoa(n)
+	},
+	"anyf": func(x any) string { return fmt.Sprintf("%T", x) },
 	"pair": func(n int) (int, error) {
 		if n < 0 {
 			return 0, errors.New("negative")
@@ -190,6 +193,11 @@ func c08Call(ctx Val, fn string, recv Val, args []c08A) c08Out {
 			return c08Error
 		}
 		return c08Out{kind: "val", v: vStr("ctx:" + av[0].Str())}
+	case "ctx3":
+		if len(av) != 3 || !isStr(0) || !isStr(1) || !isInt(2) {
+			return c08Error
+		}
+		return c08Out{kind: "val", v: vStr(av[0].Str() + "|" + av[1].Str() + "|" + strconv.Itoa(int(av[2].I)))}
 	case "anyf":
 		if len(av) != 1 {
 			return c08Error
@@ -355,6 +363,9 @@ func c08Resolve(cs *c08Case) c08Out {
 			n := st.Idx
 			if st.Kind == "sub_var" {
 				v, ok := cs.Ctx.Lookup(st.Name)
+				if ok && v.K == "f64" && v.Float() != float64(int(v.Float())) && strings.HasPrefix(cur.K, "map") {
+					return c08Empty // a non-integral float is not a key of any of these maps
+				}
 				if !ok || v.K != "int" {
 					return c08Out{kind: "opaque"}
 				}
@@ -454,6 +465,11 @@ func checkC08(c any, r *Rec) error {
 	}
 	got, xerr := tpl.Execute(BuildContext(cs.Ctx))
 	desc := fmt.Sprintf("%s with ctx %s", src, descVal(cs.Ctx))
+	// resolving a name must not change what it resolves to: the second evaluation sees the same
+	got2, xerr2 := tpl.Execute(BuildContext(cs.Ctx))
+	if got2 != got || errText(xerr2) != errText(xerr) {
+		return fmt.Errorf("%s: first evaluation gave %q / %s, the second %q / %s", desc, got, errText(xerr), got2, errText(xerr2))
+	}
 	switch want.kind {
 	case "error":
 		if xerr == nil {
@@ -615,7 +631,7 @@ func genC08Args(t *rapid.T, l string) []c08A {
 
 func genC08(t *rapid.T) *c08Case {
 	ctx := ctxVal("i", vInt(drawInt(t, 0, 4, "ctx.i")), "s", vStr("str"), "neg", vInt(-1), "i64", vIntK("int64", 5), "flag", vBool(false), "flagt", vBool(true),
-		"idx", vInt(drawInt(t, -1, 3, "ctx.idx")), "key", vStr("k1"))
+		"idx", vInt(drawInt(t, -1, 3, "ctx.idx")), "key", vStr("k1"), "fidx", vF64(pick(t, "ctx.fidx", []float64{0.5, 1.5, 1.75, 7.25})))
 	roots := []string{}
 	for _, nm := range []string{"r1", "r2", "r3"} {
 		ctx.Ks = append(ctx.Ks, vStr(nm))
@@ -625,7 +641,7 @@ func genC08(t *rapid.T) *c08Case {
 	for name := range c08Funcs {
 		_ = name
 	}
-	fnames := []string{"add2", "anyf", "cat", "mixed", "mk", "pair", "retnil", "viaval", "withctx"}
+	fnames := []string{"add2", "anyf", "cat", "ctx3", "mixed", "mk", "pair", "retnil", "viaval", "withctx"}
 	for _, fn := range fnames {
 		ctx.Ks = append(ctx.Ks, vStr(fn))
 		ctx.E = append(ctx.E, Val{K: "fn:" + fn})
@@ -639,6 +655,7 @@ func genC08(t *rapid.T) *c08Case {
 				"add2": {{K: "int", I: drawInt(t, 0, 9, "a1")}, {K: "name", S: "i"}}, "anyf": {{K: "name", S: pick(t, "anyarg", []string{"i", "s", "i64", "undefinedarg", "flag"})}},
 				"cat": {{K: "str", S: "a"}, {K: "name", S: "s"}}, "mixed": {{K: "str", S: "ab"}, {K: "int", I: 1}, {K: "name", S: "i"}}, "mk": nil, "retnil": nil,
 				"pair": {{K: "name", S: pick(t, "pairarg", []string{"i", "neg"})}}, "viaval": {{K: "name", S: pick(t, "vv", []string{"s", "i", "undefinedarg"})}}, "withctx": {{K: "str", S: "w"}},
+				"ctx3": {{K: "name", S: "s"}, {K: "str", S: "x"}, {K: "int", I: drawInt(t, 0, 9, "c3")}},
 			}[cs.Root]
 		}
 		cs.Steps = append(cs.Steps, c08Step{Kind: "call", Args: args})
@@ -690,6 +707,9 @@ func genC08(t *rapid.T) *c08Case {
 			}
 		case cur.K == "mapIA" && len(cur.Ks) > 0:
 			st = c08Step{Kind: "sub_int", Idx: int(pick(t, "ik", cur.Ks).I)}
+			if drawInt(t, 0, 3, "floatkey") == 0 {
+				st = c08Step{Kind: "sub_var", Name: "fidx"}
+			}
 		case seqKind(cur) && len(cur.E) > 0:
 			j := drawInt(t, 0, len(cur.E)-1, "j")
 			st = pick(t, "seqstep", []c08Step{{Kind: "index", Idx: j}, {Kind: "sub_int", Idx: j}, {Kind: "sub_var", Name: "idx"}, {Kind: "sub_var", Name: "i"}})
